@@ -359,8 +359,11 @@ def run_history(acc, rng, hist_seed):
                     acc.violation("server-died|%s|%s|%s|%s" % (m.split("/")[-1], cls, docstate, mm.group(1) if mm else "exit %s" % resp["dead"]),
                                   "%s at %s:%d:%d (%s) killed the server: %s" % (m, name, ln, ch, cls, err[-200:].replace("\n", " | ")), w)
                     return
+                if resp.get("busy"):
+                    acc.inconc("%s still computing after the extended watchdog (%s, %s)" % (m, cls, docstate))
+                    return
                 if "timeout" in resp:
-                    acc.violation("no-response|%s|%s|%s" % (m.split("/")[-1], cls, docstate), "no response to %s within the watchdog, process alive=%s" % (m, pr.srv.alive()), w)
+                    acc.violation("no-response|%s|%s|%s" % (m.split("/")[-1], cls, docstate), "no response to %s: every thread of the server is asleep and it consumes no CPU" % m, w)
                     return
                 texts = dict(disk)
                 texts.update(open_bufs)
